@@ -5,7 +5,7 @@ from appsession import *  # noqa
 ID = "C06"
 PROOF_MODULES = ["VncProofs.C06", "VncProofs.C02", "VncProofs.System"]
 THEOREMS = ["Vnc.C06_request_geometry", "Vnc.C06_region_request", "Vnc.C06_no_save_on_start", "Vnc.C06_commit_ends_update", "Vnc.C06_saved_is_screen",
-            "Vnc.C06_pixels_are_screen", "Vnc.C06_commit_without_waiter", "Vnc.C02_desktop_geometry", "Vnc.C01_seg_indep",
+            "Vnc.C06_pixels_are_screen", "Vnc.C06_commit_without_waiter", "Vnc.C06_capture_waits_for_pixels", "Vnc.C02_desktop_geometry", "Vnc.C01_seg_indep",
             "Vnc.sys_progress", "Vnc.Sys_seg_indep", "Vnc.Sys_chunkings", "Vnc.Sys_rechunk", "Vnc.sys_feed_rfb", "Vnc.C06_sys_saves_follow_commit",
             "Vnc.C06_sys_save_is_screen", "Vnc.sys_screen_is_painter"]
 TRUSTED = [
@@ -56,6 +56,17 @@ def oracle(spec, res, size0):
                     for (x, y, w, h, px) in rc.paint:
                         ref.paint(x, y, w, h, px, spec.pf)
                 upd_i += 1
+            if ref.rgb() is None and pending:
+                # the completed update carried no pixel data (a cursor shape only): there is no screen to save yet; the capture
+                # keeps waiting and asks again for the whole desktop
+                for ci in sorted(pending):
+                    nxt = tl[i + 1] if i + 1 < len(tl) else None
+                    want = "w:" + struct.pack("!BBHHHH", 3, 0, 0, 0, geom[0], geom[1]).hex()
+                    if nxt != want:
+                        return "capture (command %d): after an update without pixel data the client did %r, expected another full request %r" % (ci, nxt, want), n_mid
+                    i += 1
+                i += 1
+                continue
             # every pending capture must save right now, exactly once, the screen as it is now
             for ci, (f, box) in sorted(pending.items()):
                 nxt = tl[i + 1] if i + 1 < len(tl) else None
